@@ -8,6 +8,8 @@ from ..enum_f import run_grid
 
 common.import_pams()
 from pams.market import Market  # noqa: E402
+from pams.simulator import Simulator as _Simulator  # noqa: E402
+import random as _random  # noqa: E402
 from pams.order import LIMIT_ORDER, MARKET_ORDER, Order  # noqa: E402
 
 RULE = ("every price of the exact domain (ticks 1/8..100 exactly representable x all k/32 up to 40 plus the neighbourhoods of grid "
@@ -64,7 +66,7 @@ def cases(tier):
 
 def fn(case, wit):
     tick, exact, p, is_buy = case
-    m = Market(0, None, None, "m")
+    m = Market(0, _random.Random(0), _Simulator(prng=_random.Random(1)), "m")
     m.setup({"tickSize": tick, "marketPrice": 100.0})
     m._update_time(100.0)
     if p is None:
@@ -132,7 +134,7 @@ def seq_cases(tier):
 
 def seq_fn(case, wit):
     tick, exact, p, order = case
-    m = Market(0, None, None, "m")
+    m = Market(0, _random.Random(0), _Simulator(prng=_random.Random(1)), "m")
     m.setup({"tickSize": tick, "marketPrice": 100.0})
     m._update_time(100.0)
     m._is_running = False  # orders only rest: the book may cross, nothing is matched
@@ -176,7 +178,7 @@ def shared_fn(case, wit):
     ps = neighbourhood(tick, ks)
     if direction == "descending":
         ps = ps[::-1]
-    m = Market(0, None, None, "m")
+    m = Market(0, _random.Random(0), _Simulator(prng=_random.Random(1)), "m")
     if direction.startswith("tick_size_changed_from_"):
         old = float(direction[len("tick_size_changed_from_"):])
         m.setup({"tickSize": old, "marketPrice": 100.0})
